@@ -189,7 +189,8 @@ class PF(EKF):
         '''
         r = torch.rand(self.particles, dtype=x.dtype, device=x.device)
         cumsumq = torch.cumsum(q, dim=-1)
-        return x[torch.searchsorted(cumsumq, r)]
+        # the rounded cumulative sum may end slightly below 1, and below a draw r < 1
+        return x[torch.searchsorted(cumsumq, r).clamp(max=self.particles - 1)]
 
     def compute_cov(self, a, b, Q=0):
         '''Compute covariance of two set of variables.'''
